@@ -65,7 +65,13 @@ ApiClauses(e) ==
      <<"pixelIndex",  All(e.obs.q, LAMBDA q :
                         /\ Len(q.pidx) = Len(q.pixels)
                         /\ \A k \in DOMAIN q.pidx : c.px[q.pidx[k] + 1] = q.pixels[k])>>,
-     <<"defaultIndex", All(e.obs.q, LAMBDA q : q.pidx0 = [k \in 1..Len(q.pixels) |-> k - 1])>> >>
+     <<"defaultIndex", All(e.obs.q, LAMBDA q : q.pidx0 = [k \in 1..Len(q.pixels) |-> k - 1])>>,
+     \* join=True: every stored record of the window with the coordinates of its own two bins, in storage order
+     <<"joinedPixels", All(e.obs.q, LAMBDA q : ~Has(q, "joined") \/
+          LET px == PixelsInWindow(c, q.w)
+              t == e.case.table
+          IN q.joined = [k \in DOMAIN px |-> <<t[px[k][1] + 1][1], t[px[k][1] + 1][2], t[px[k][1] + 1][3],
+                                               t[px[k][2] + 1][1], t[px[k][2] + 1][2], t[px[k][2] + 1][3], px[k][3]>>])>> >>
 
 (* rq.slice: slice spellings through Cooler.matrix()[key] *)
 SelWindow(rs, cs, n) ==
